@@ -73,6 +73,12 @@ def formulas(tier, rng):
             for op in ("/", "*", ":"):
                 for u in ("a", "b", "a:b", "a:c"):
                     out += [f"y ~ ({l} {op} ({B}) - {u})", f"(({l} {op} ({B})) - {u}) + c", f"(({B}) {op} {l} - {u})"]
+    # products / quotients of two single terms whose interaction collapses onto one of them, then used further
+    for l in ("a:b", "a:b:c", "f(x):a"):
+        for r in ("a", "b", "a:b", "b:a"):
+            for op in ("*", "/", ":"):
+                out += [f"y ~ ({l} {op} {r} - {l})", f"y ~ ({l} {op} {r} - {r})", f"(({l} {op} {r}) + c)**2", f"({r} {op} {l} + c)**2 - c", f"({l} {op} {r}) / c",
+                        f"({l} {op} {r}|g)"]
     out += random_formulas(rng, 3000 if tier == "quick" else 40000)
     pick = base if tier == "thorough" else rng.sample(base, min(len(base), 1500))
     for f in pick:
